@@ -9,7 +9,11 @@ From KV.gen Require Import Gen_Sites.
 From KV.proofs Require Import MutexProof ShapeBase ShapeMutex ShapeSites.
 
 Open Scope string_scope.
-Definition lock_cas_success : ordering := site_ord atomic_sites "mutex.RawMutexLock.RawMutex.try_lock" 0.
+(* the CAS of try_lock and the four CAS transitions of lock (first attempt, and the retries of the three phases of
+   spin_cond, inlined): the weakest of them *)
+Definition lock_cas_success : ordering :=
+  ord_meet_all (site_ord atomic_sites "mutex.RawMutexLock.RawMutex.try_lock" 0 ::
+                map (site_ord atomic_sites "mutex.RawMutexLock.RawMutex.lock") [0; 1; 2; 3]).
 Definition unlock_store : ordering := site_ord atomic_sites "mutex.RawMutexLock.RawMutex.unlock" 0.
 
 (* the orderings written in the current source are strong enough for the hand-over *)
